@@ -22,8 +22,14 @@ func TestC08(t *testing.T) {
 	qToggles := &w.Alpha{Annots: []string{"rolling-update-paused=true", "rolling-update-paused=false", "rollout-frozen=true", "rollout-frozen-", "rolling-update-paused=True"}, AddNodes: []string{"n9"}}
 	qCanary := &w.Alpha{Annots: []string{"canary-paused=true", "canary-unpaused=true"}, Kubectl: []string{"canary-pause", "canary-unpause", "canary-validate"}, PodDev: []string{"restart:2"}}
 	scs := []scOpt{corpusS2(n2, "1", b, qToggles), corpusS3(n2, "2", "auto", b, qCanary)}
+	// a canary that was paused and unpaused by command before its first pod exists: a further "canary pause" must hold
+	// back the pods that are still to be created
+	s3pu := corpusS3(n2, "2", "auto", b, &w.Alpha{Kubectl: []string{"canary-pause", "canary-unpause"}})
+	s3pu.name = "S3-canary-paused-unpaused-before"
+	s3pu.first = []w.Event{evb("setTemplate", edsKey, "B"), ev("R_eds", edsKey), ev("R_eds", edsKey), evb("kubectl", edsKey, "canary-pause"), evb("kubectl", edsKey, "canary-unpause")}
+	scs = append(scs, s3pu)
 	if h.Thorough() {
-		scs = []scOpt{corpusS2(n3, "1", 2, toggles), corpusS2(n2, "1", 3, toggles), corpusS3(n3, "2", "auto", 3, canaryToggles)}
+		scs = []scOpt{s3pu, corpusS2(n3, "1", 2, toggles), corpusS2(n2, "1", 3, toggles), corpusS3(n3, "2", "auto", 3, canaryToggles)}
 	}
 	type start struct {
 		sc *w.Scenario
